@@ -59,7 +59,10 @@ def rand_prog(rng: random.Random, c: dict, level: int, nb: int, own_bus: int, sy
         elif x < 0.80 + c['p_bus']:
             prog.append(['bus'])
         elif x < 0.80 + c['p_bus'] + c['p_raise']:
-            prog.append(['raise', rng.choice(c['exc_kinds'])])
+            if not sync and rng.random() < 0.08 and 'TimeoutError' not in c['exc_kinds']:
+                prog.append(['raise_cancelled', rng.choice([0, 0.01])])  # CancelledError out of the handler, nobody cancelled the handler
+            else:
+                prog.append(['raise', rng.choice(c['exc_kinds'])])
         elif x < 0.80 + c['p_bus'] + c['p_raise'] + c['p_retexc']:
             # (an object whose __str__ raises cannot be *returned*: the library formats return values for its debug log; raising it is fine)
             prog.append(['retexc', rng.choice([k for k in c['exc_kinds'] if k not in ('Unprintable', 'StopIter')])])
@@ -81,7 +84,7 @@ def random_scenario(rng: random.Random, c: dict) -> dict:
     hist = c['hist']
     buses = []
     for i in range(nb):
-        buses.append({'name': f'B{i}', 'par': rng.random() < c['p_par'], 'lazy': rng.random() < c['p_lazy'], 'sub': rng.random() < 0.3,
+        buses.append({'name': f'B{i}' if rng.random() > 0.04 else f'_B{i}', 'par': rng.random() < c['p_par'], 'lazy': rng.random() < c['p_lazy'], 'sub': rng.random() < 0.3,
                       'hist': (rng.choice(hist) if isinstance(hist, (list, tuple)) else hist)})
     fwd = []
     if nb > 1 and rng.random() < c['p_fwd']:
